@@ -107,16 +107,25 @@ impl AccessStructure {
         encryption_hint: EncryptionHint,
         after: Option<&str>,
     ) -> Result<(), Error> {
-        let cnt = self
+        // The ID of the new attribute must differ from the ID of every
+        // existing attribute: counting the attributes is not enough once some
+        // have been deleted.
+        let id = self
             .dimensions
             .values()
-            .map(Dimension::nb_attributes)
-            .sum::<usize>();
+            .flat_map(Dimension::attributes)
+            .map(Attribute::get_id)
+            .max()
+            .map_or(Ok(0), |max_id| {
+                max_id.checked_add(1).ok_or_else(|| {
+                    Error::OperationNotPermitted("attribute ID space exhausted".to_string())
+                })
+            })?;
 
         self.dimensions
             .get_mut(&attribute.dimension)
             .ok_or_else(|| Error::DimensionNotFound(attribute.dimension.clone()))?
-            .add_attribute(attribute.name, encryption_hint, after, cnt)?;
+            .add_attribute(attribute.name, encryption_hint, after, id)?;
 
         Ok(())
     }
